@@ -517,6 +517,12 @@ class C13Collector:
             if timeouts and not expect_violation and any(fins.values()) and not all(fins.get(r, False) for r in range(W)) and len(fins) == W:
                 # some succeeded, some raised: only through a peer's own timeout in depart (C13_timeout_error_reaches_everyone_refuted)
                 self.res.count("outcome_split_by_depart_timeout(as refuted theorem predicts)", f"W={W}")
+                if not getattr(self, "_split_reported", False):
+                    self._split_reported = True
+                    ok_r = sorted(r for r, v in fins.items() if v)
+                    self.res.failures.append(Failure("C13:timeout:peer-raises-alone-after-commit",
+                                                     f"W={W}: the store.wait of a peer's depart timed out after the leader had read its key: the snapshot is committed, "
+                                                     f"ranks {ok_r} report success, the other rank(s) raise", {"tag": tag, "W": W, "mode": mode}))
         for e in run.events:
             if e["kind"] == "finished":
                 self.res.count("outcome", "success" if e["ok"] else "raised")
